@@ -113,6 +113,8 @@ struct Cs {
     done: bool,
     /// code of the glyph being walked in the standard encoding (-1 = none): "self" of a seac operand
     own_code: i64,
+    /// largest number of operands on the stack when an operator was met
+    max_args: usize,
 }
 
 /// the field value that encodes the charstring number `v` in the number format `fmt` (see `Cs::stack`)
@@ -139,6 +141,11 @@ pub struct Walk<'a> {
     mute: bool,
     /// index in `out` of the first field of the table being walked
     tmark: usize,
+    /// content classes of the intact bytes as this walk's own readers see them (vacuity of the buffer-filling inputs):
+    /// `<CFF|CFF2>.max_operands` = the largest number of operands a charstring operator of the glyphs the outlines group
+    /// visits finds on the stack, `.dict_max_operands` = the same for the operators of a DICT, `.dict_real_chars` = the
+    /// longest real number of a DICT in characters ("E-" counts two)
+    pub content: std::collections::BTreeMap<String, usize>,
 }
 
 /// Glyph ids the `outlines` entry point group visits for a font that declares `n` glyphs
@@ -159,7 +166,11 @@ fn tag_string(b: &[u8]) -> String {
 
 impl<'a> Walk<'a> {
     pub fn new(d: &'a [u8]) -> Walk<'a> {
-        Walk { d, out: Vec::new(), recs: Vec::new(), tbl: String::new(), tstart: 0, tlen: d.len(), level: "dir", mute: false, tmark: 0 }
+        Walk { d, out: Vec::new(), recs: Vec::new(), tbl: String::new(), tstart: 0, tlen: d.len(), level: "dir", mute: false, tmark: 0, content: Default::default() }
+    }
+    fn note_max(&mut self, what: &str, v: usize) {
+        let e = self.content.entry(format!("{}.{}", self.tbl.trim(), what)).or_default();
+        *e = (*e).max(v);
     }
     fn enter(&mut self, tbl: &str, start: usize, len: usize, level: &'static str) {
         self.tbl = tbl.to_string();
@@ -1779,7 +1790,7 @@ impl<'a> Walk<'a> {
         let mut ops: Vec<(usize, usize, i64, u8)> = Vec::new(); // (pos, width, value, number format: 1, 2, 3 as in charstrings, 5 = i32 after 29, 0 = real)
         let mut p = a;
         let mut guard = 0;
-        while p < b && guard < 400 {
+        while p < b && guard < 1500 {
             guard += 1;
             let b0 = match self.u8(p) {
                 Some(x) => x,
@@ -1797,6 +1808,7 @@ impl<'a> Walk<'a> {
                     };
                     self.f(p, w as u8, "version", &format!("{}.op{}", nm, op));
                     let n = ops.len();
+                    self.note_max("dict_max_operands", n);
                     for (k, (pos, wd, _, fmt)) in ops.iter().enumerate() {
                         let role = if roles.len() == n { roles[k] } else if n > roles.len() && k >= n - roles.len() { roles[k - (n - roles.len())] } else { "value" };
                         let enc = |v: i64| -> i64 {
@@ -1826,12 +1838,19 @@ impl<'a> Walk<'a> {
                     // real number: nibbles up to 0xf
                     let s = p;
                     p += 1;
+                    let mut chars = 0;
                     while let Some(x) = self.u8(p) {
                         p += 1;
-                        if x & 0x0f == 0x0f || x >> 4 == 0x0f {
+                        if x >> 4 == 0x0f {
                             break;
                         }
+                        chars += if x >> 4 == 0x0c { 2 } else { 1 };
+                        if x & 0x0f == 0x0f {
+                            break;
+                        }
+                        chars += if x & 0x0f == 0x0c { 2 } else { 1 };
                     }
+                    self.note_max("dict_real_chars", chars);
                     ops.push((s + 1, 1, 0, 0));
                 }
                 32..=246 => {
@@ -1880,6 +1899,9 @@ impl<'a> Walk<'a> {
                 Some(x) => x,
                 None => return false,
             };
+            if b0 < 32 && b0 != 28 {
+                cs.max_args = cs.max_args.max(cs.stack.len());
+            }
             match b0 {
                 28 => {
                     cs.stack.push((self.u16(p + 1).unwrap_or(0) as u16 as i16 as i64, p + 1, 2, 3));
@@ -2252,7 +2274,7 @@ impl<'a> Walk<'a> {
                 }
             }
         };
-        let mut cs = Cs { cff2, gsubr_at, gcount, lsubr_at: 0, lcount: 0, stack: Vec::new(), stems: 0, wp: cff2, frames: Vec::new(), steps: 0, region_counts, vsindex: 0, emitted_top: 0, emitted_sub: 0, seen: std::collections::BTreeSet::new(), seac: 0, done: false, own_code: -1 };
+        let mut cs = Cs { cff2, gsubr_at, gcount, lsubr_at: 0, lcount: 0, stack: Vec::new(), stems: 0, wp: cff2, frames: Vec::new(), steps: 0, region_counts, vsindex: 0, emitted_top: 0, emitted_sub: 0, seen: std::collections::BTreeSet::new(), seac: 0, done: false, own_code: -1, max_args: 0 };
         if cs_at > 0 {
             for g in outline_gids(n_glyphs.min(65535) as u16) {
                 let g = g as usize;
@@ -2312,6 +2334,7 @@ impl<'a> Walk<'a> {
                 }
             }
         }
+        self.note_max("max_operands", cs.max_args);
     }
 
     // ---- images -----------------------------------------------------------------------------------------
